@@ -755,6 +755,32 @@ func (g *gen) run() {
 		}, 0)
 		s2f = append(s2f, n3)
 	}
+	// the SECOND chain (bsc): the same kinds of events through the same keeper code with another module name / store /
+	// address format table entry; accepted when the bsc proposal passed (seeded) and its two oracles bonded, refused
+	// otherwise (both are deterministic outcomes to compare)
+	bscToken := "0x" + strings.Repeat("b5", 20)
+	bscNonce, bscHeight := uint64(0), uint64(1000)
+	bscClaimAll := func(mk func(b string, n, h uint64) crosschaintypes.ExternalClaim) {
+		bscNonce++
+		bscHeight += uint64(1 + g.rng.Intn(9))
+		for _, i := range g.rng.Perm(2) {
+			g.injectMsg(&crosschaintypes.MsgClaim{ChainName: "bsc", BridgerAddress: g.bridgers[i].Addr(), Claim: mustAny(mk(g.bridgers[i].Addr(), bscNonce, bscHeight))})
+		}
+	}
+	bscClaimAll(func(b string, n, h uint64) crosschaintypes.ExternalClaim {
+		return &crosschaintypes.MsgBridgeTokenClaim{EventNonce: n, BlockHeight: h, TokenContract: bscToken, Name: "Function X", Symbol: fxtypes.DefaultDenom,
+			Decimals: 18, BridgerAddress: b, ChainName: "bsc"}
+	})
+	for k := 0; k < 1+g.rng.Intn(3); k++ {
+		recv, amt := g.anyUser(), sdkmath.NewInt(int64(1+g.rng.Intn(900))).MulRaw(1e18)
+		bscClaimAll(func(b string, n, h uint64) crosschaintypes.ExternalClaim {
+			return &crosschaintypes.MsgSendToFxClaim{EventNonce: n, BlockHeight: h, TokenContract: bscToken, Amount: amt, Sender: g.ext[0], Receiver: recv.Addr(),
+				TargetIbc: "", BridgerAddress: b, ChainName: "bsc"}
+		})
+	}
+	bu := g.anyUser()
+	g.txMaybeTight(bu, &crosschaintypes.MsgSendToExternal{Sender: bu.Addr(), Dest: g.ext[1], Amount: fxFrac(int64(100 + g.rng.Intn(900))),
+		BridgeFee: fxFrac(int64(1 + g.rng.Intn(9))), ChainName: "bsc"})
 	g.endBlock(short, "oracle-set-updated + send-to-fx claims")
 
 	// ---- phase 5: EVM -> precompiles: executeClaim (crosschain), delegateV2 (staking), crossChain
